@@ -444,6 +444,117 @@ def run(run):
         if w.fileno() != 99:
             run.violation('wrapper/fileno', 'fileno not passed through', {})
 
+    # every I/O method the wrappers *offer* goes through the cipher: user
+    # code (and library code) picks methods by feature test - 'sendall' if
+    # there is one, else 'send' - and whatever it finds on the object standing
+    # for the encrypted connection must write ciphertext / return plaintext
+    if run.shard == 0:
+        import socket as _socket
+        for rep in range(6 if thorough else 2):
+            secret = bytes(rng.getrandbits(8) for _ in range(16))
+            a, b = _socket.socketpair()
+            a.settimeout(5.0)
+            b.settimeout(5.0)
+            raw_file = a.makefile('rb', 0)
+            c = encryption.create_AES_cipher(secret)
+            enc, dec = c.encryptor(), c.decryptor()
+            sock = encryption.EncryptedSocketWrapper(a, enc, dec)
+            fobj = encryption.EncryptedFileObjectWrapper(raw_file, dec)
+            ref_enc = cfb8.CFB8(secret, secret)     # client -> server stream
+            ref_dec = cfb8.CFB8(secret, secret)     # server -> client stream
+            try:
+                for name in ('send', 'sendall', 'sendmsg', 'write',
+                             'sendfile', 'send'):
+                    fn = getattr(sock, name, None)
+                    if not callable(fn):
+                        continue
+                    plain = bytes(rng.getrandbits(8) for _ in range(
+                        rng.choice((1, 17, 100))))
+                    try:
+                        if name == 'sendmsg':
+                            fn([plain])
+                        elif name == 'sendfile':
+                            import io as _io2
+                            fn(_io2.BytesIO(plain))
+                        else:
+                            fn(plain)
+                    except Exception as e:
+                        run.violation('wrapper/offered-method-raised',
+                                      'an output method the socket wrapper '
+                                      'offers raised', {'method': name,
+                                                        'error': repr(e)})
+                        break
+                    want = ref_enc.encrypt(plain)
+                    got = b''
+                    try:
+                        while len(got) < len(want):
+                            got += b.recv(len(want) - len(got))
+                    except Exception:
+                        pass
+                    run.count('wrapper_output_methods_checked')
+                    run.seen('wrapper_methods_offered', 'socket.' + name)
+                    if got != want:
+                        run.violation(
+                            'wrapper/output-method-bypasses-cipher',
+                            'an output method offered by the encrypted socket '
+                            'wrapper does not write the continuation of the '
+                            'cipher stream', {'method': name, 'plaintext':
+                                              got == plain})
+                        break
+                for owner, name in ((sock, 'recv'), (fobj, 'read'),
+                                    (sock, 'recv_into'), (fobj, 'readinto'),
+                                    (sock, 'recvfrom'), (fobj, 'read1'),
+                                    (fobj, 'readline'), (sock, 'makefile'),
+                                    (fobj, 'readall'), (sock, 'recv'),
+                                    (fobj, 'read')):
+                    fn = getattr(owner, name, None)
+                    if not callable(fn):
+                        continue
+                    n = rng.choice((1, 16, 33))
+                    plain = bytes(rng.randrange(32, 127) for _ in range(n - 1))\
+                        + b'\n'
+                    b.sendall(ref_dec.encrypt(plain))
+                    try:
+                        if name in ('recv_into', 'readinto'):
+                            buf = bytearray(n)
+                            k = fn(buf)
+                            got = bytes(buf[:k])
+                        elif name == 'recvfrom':
+                            got = fn(n)[0]
+                        elif name == 'readline':
+                            got = fn()
+                        elif name == 'makefile':
+                            f2 = fn('rb', 0)
+                            got = f2.read(n)
+                        elif name == 'readall':
+                            b.shutdown(_socket.SHUT_WR)
+                            got = fn()
+                        else:
+                            got = fn(n)
+                    except Exception as e:
+                        run.violation('wrapper/offered-method-raised',
+                                      'an input method a wrapper offers '
+                                      'raised', {'method': name,
+                                                 'error': repr(e)})
+                        break
+                    run.count('wrapper_input_methods_checked')
+                    run.seen('wrapper_methods_offered', (
+                        'socket.' if owner is sock else 'file.') + name)
+                    if got != plain:
+                        run.violation(
+                            'wrapper/input-method-bypasses-cipher',
+                            'an input method offered by an encrypted wrapper '
+                            'does not return the plaintext', {
+                                'method': name, 'ciphertext_returned':
+                                bool(got) and got != plain})
+                        break
+            finally:
+                for x in (raw_file, a, b):
+                    try:
+                        x.close()
+                    except Exception:
+                        pass
+
     # secrets: length and freshness
     secrets = [encryption.generate_shared_secret() for _ in range(1000)]
     run.count('secrets_generated', len(secrets))
@@ -537,3 +648,6 @@ def run(run):
     run.require('rsa_handovers', 2)
     run.require('zero_length_reads', 3)
     run.require('concurrent_keys.handovers', 10)
+    if run.shard == 0:
+        run.require('wrapper_output_methods_checked', 2)
+        run.require('wrapper_input_methods_checked', 4)
